@@ -83,14 +83,15 @@ def parsePath : Val → Option (List Step)
 
 structure StT where
   t : PT Float
+  held : List (List Float) := []      -- the caller's lists (Model/PenaltyTree `Sess`)
   out : Array String := #[]
 
 def stepT (leaves : Array LeafT) (fns : Array Expr) (s : StT) (op : Val) : Option StT := do
   let env := envAt leaves fns
   let mut' (o : TOp Float) : StT :=
-    let t' := o.apply s.t
-    let st := pState (allLevels t')
-    { t := t', out := s.out.push (match o.err s.t with | some e => pErr e ++ " " ++ st | none => st) }
+    let s' := (SOp.tree o).apply ⟨s.t, s.held⟩
+    let st := pState (allLevels s'.t)
+    { t := s'.t, held := s'.held, out := s.out.push (match o.err s.t with | some e => pErr e ++ " " ++ st | none => st) }
   match op with
   | .list [.sym "call", pv, xv] =>
     let x ← xv.asFloats?
@@ -119,6 +120,16 @@ def stepT (leaves : Array LeafT) (fns : Array Expr) (s : StT) (op : Val) : Optio
   | .list [.sym "storedI", pv, .int i] =>
     let sub ← getT (← parsePath pv) s.t
     pure { s with out := s.out.push s!"(v {pF (storedAt (storedT sub) i)})" }
+  | .list [.sym "hold", pv] =>          -- r = obj.stored() kept by the caller; reply: the list it received
+    let p ← parsePath pv
+    let _ ← getT p s.t
+    let s' := (SOp.hold p).apply ⟨s.t, s.held⟩
+    pure { s with t := s'.t, held := s'.held, out := s.out.push s!"(ys {pFs (s'.held.getLastD [])})" }
+  | .list [.sym "hmut", .int i, ys] =>   -- the caller edited its list i (contents now ys); reply: the state of the whole tree
+    let s' := (SOp.hmut i.toNat (← ys.asFloats?)).apply ⟨s.t, s.held⟩
+    pure { s with t := s'.t, held := s'.held, out := s.out.push (pState (allLevels s'.t)) }
+  | .list [.sym "held", .int i] =>       -- the caller looks at its list i
+    pure { s with out := s.out.push s!"(ys {pFs (s.held.getD i.toNat [])})" }
   | .list [.sym "iteration", pv] =>
     let sub ← getT (← parsePath pv) s.t
     pure { s with out := s.out.push s!"(n {iterationT sub})" }
